@@ -218,6 +218,21 @@ func famInfix() {
 			o["text"], o["chars"], o["style"] = text, abstract(text), k
 			vars = append(vars, o)
 		}
+		// a directive-looking comment after the first token (also after a leading `!x`) changes nothing: directives
+		// are honoured only before the first token, in infix notation too
+		{
+			text := joinInfix(r, infixToks(r, t, 0, 0), false)
+			if i := strings.IndexByte(text, ' '); i > 0 && !strings.Contains(text[:i], "\"") {
+				word := "false"
+				if mask == 0 {
+					word = "true"
+				}
+				text = text[:i] + "\n;;;; constant_folding:" + word + ", reduce_nesting:" + word + ", fast_evaluation:" + word + ", reordering:" + word + "\n" + text[i+1:]
+				o := obs(text, true)
+				o["text"], o["chars"], o["style"] = text, abstract(text), 4
+				vars = append(vars, o)
+			}
+		}
 		rec["infix"] = vars
 		emit(rec)
 	}
